@@ -92,6 +92,8 @@ def get_repo():
     # 1. spelling: for_each / try_for_each statements read as `for` loops, `Self { .. }` / `Self::V` as the type, aliases added since the
     #    reference tree as what they stand for
     n_loops = canon.desugar_loops(data0)
+    canon.desugar_entry(data0)
+    canon.desugar_filter_loops(data0)
     canon.expand_self(data0)
     if ref:
         canon.expand_new_aliases(data0, set(ref.get("__aliases__", [])))
